@@ -207,6 +207,23 @@ func c13Build(concurrent bool) func(w *World) {
 				}
 				switch mode {
 				case 1: // > 64 distinct unanswered requests
+					if w.T.Bool(1, 2, "answered-requests-first") {
+						// ... after many requests that were answered (seed C13-h: what is left of an
+						// answered request must not count against the bound, nor against eviction)
+						for j := 0; j < 60; j++ {
+							dst := FAddr(p.Addr, []uint{1}, uint(300+j))
+							op := d.begin(w, "request", AddrStr(dst)+"|answered-bulk")
+							c, _ := d.snd.Request(model.CmdClassifierTypeRead, local.Address(), dst, false, []model.CmdType{{MeasurementListData: &model.MeasurementListDataType{}}})
+							d.end(w, op, c)
+							if c != nil {
+								rop := d.begin(w, "response", "")
+								rop.ctr = uint64(*c)
+								d.snd.ProcessResponseForMsgCounterReference(c)
+								d.end(w, rop, c)
+							}
+						}
+						w.Probe("c13-many-answered-requests-first")
+					}
 					for j := 0; j < 90; j++ {
 						dst := FAddr(p.Addr, []uint{1}, uint(100+j))
 						op := d.begin(w, "request", AddrStr(dst)+"|bulk")
